@@ -34,9 +34,12 @@ for d in sorted(glob.glob(os.path.join(HERE, 'seeded', '*'))):
     if len(by) > 150: by = by[:147] + '...'
     hist = m.get('history', '')
     first = 'caught' if hist.startswith('detected') else ('not detected (outside the properties)' if hist.startswith('NOT') else 'missed -> strengthened')
+    if m.get('retired'):
+        first = 'retired: ' + m['retired']
+        by = '(no longer breaks the property)'
     rows.append('| %s | %s | %s | %s |' % (sid, needs, by, first))
-n = len(rows); missed = sum(1 for r in rows if 'missed ->' in r); nd = sum(1 for r in rows if 'not detected' in r)
-table = ("%d changes are kept; %d are reported by a quick check on every run, %d is deliberately not detected (outside what the properties state), %d were missed when first tried and led to a strengthening.\n\n" % (n, n - nd, nd, missed)
+n = len(rows); missed = sum(1 for r in rows if 'missed ->' in r); nd = sum(1 for r in rows if 'not detected' in r); ret = sum(1 for r in rows if '| retired: ' in r)
+table = ("%d changes are kept; %d are reported by a quick check on every run, %d are deliberately not detected (outside what the properties state), %d retired (a later repair of /repo made the change harmless; re-confirmed with its own demo), %d were missed when first tried and led to a strengthening.\n\n" % (n, n - nd - ret, nd, ret, missed)
          + '| seeded | what it needs to manifest | caught by | first try |\n|---|---|---|---|\n' + "\n".join(rows))
 s = between(s, '<!-- BEGIN seeded -->', '<!-- END seeded -->', table)
 open(p, 'w').write(s)
